@@ -668,7 +668,7 @@ pub fn run(tier: Tier) -> CheckResult {
     res.coverage.set("cases", cases.len() as u64);
     res.coverage.set("exhaustive", exhaustive);
     res.coverage.set("samples", json!(cases.iter().step_by((cases.len() / 5).max(1)).take(5).collect::<Vec<_>>()));
-    res.coverage.set("rule", "one command per project; and the command between two other commands of the same file that carry macro arguments of their own (rename_all = \"snake_case\" before / after it) and reuse its parameter names with other kinds, all three judged by the same oracle; parameter lists: every single parameter kind (value, Option, Channel<T> in 3 spellings, 13 spellings of injected parameters) x 11 names x {default, 6 naming-case settings} x both modes, plus all ordered lists of length 2..4 (quick) / 2..5 (thorough) over the kinds menu (lists of four and more over the eight-kind menu); oracle: key sets of the declared parameter type, of the parameter schema and of the object expression reaching invoke (spreads and safeParse results resolved through the parsed AST) equal {case(name) | frontend-filled parameter}, case = heck lowerCamelCase by default (what tauri-macros applies) / serde's field rule for a configured case / the macro's own rename_all argument (#[tauri::command(rename_all = \"snake_case\")], with async / root arguments beside it) before either; omittable iff Option; every list once more next to a file that holds a non-command function of the command's name (with other parameters, sorting before or after the command's file); plus every ordered pair of parameter-case settings as two consecutive runs of the real binary / build path into one output directory (the keys follow the second setting). Non-trivial = accepted and output parsed.");
+    res.coverage.set("rule", "[round 7: 14 names incl. the reserved words delete / default / new] one command per project; and the command between two other commands of the same file that carry macro arguments of their own (rename_all = \"snake_case\" before / after it) and reuse its parameter names with other kinds, all three judged by the same oracle; parameter lists: every single parameter kind (value, Option, Channel<T> in 3 spellings, 13 spellings of injected parameters) x 11 names x {default, 6 naming-case settings} x both modes, plus all ordered lists of length 2..4 (quick) / 2..5 (thorough) over the kinds menu (lists of four and more over the eight-kind menu); oracle: key sets of the declared parameter type, of the parameter schema and of the object expression reaching invoke (spreads and safeParse results resolved through the parsed AST) equal {case(name) | frontend-filled parameter}, case = heck lowerCamelCase by default (what tauri-macros applies) / serde's field rule for a configured case / the macro's own rename_all argument (#[tauri::command(rename_all = \"snake_case\")], with async / root arguments beside it) before either; omittable iff Option; every list once more next to a file that holds a non-command function of the command's name (with other parameters, sorting before or after the command's file); plus every ordered pair of parameter-case settings as two consecutive runs of the real binary / build path into one output directory (the keys follow the second setting). Non-trivial = accepted and output parsed.");
     res.assumptions = vec!["parameter names are snake_case identifiers (on those heck and serde's camelCase agree)".into()];
     res
 }
